@@ -13,6 +13,9 @@ def engine_for(prop):
     import engine_enc
     if prop in engine_enc.CONFIG:
         return engine_enc
+    import engine_solver
+    if prop in engine_solver.CONFIG:
+        return engine_solver
     raise SystemExit('no check registered for ' + prop)
 
 
